@@ -290,7 +290,8 @@ template <class T> static void frames (int k)
     dirPair<T> (cls, a, b, sinA);
     std::string in = std::string ("a=") + sv (a) + " b=" + sv (b);
     L eps = std::numeric_limits<T>::epsilon ();
-    L cond = (cls == 2) ? 1 / std::max (sinA, eps) : 1; // cancellation in a x b for nearly parallel a, b
+    // cancellation in a x b for nearly parallel a, b (class 2 by construction; any class by coincidence): the bound scales with 1/sin(angle)
+    L cond = (cls == 2 || (sinA > 0 && sinA < 0.05)) ? 1 / std::max (sinA, eps) : 1;
     bool degenerate = cls >= 3 && cls <= 8;
     {   // alignZAxisWithTargetDir (target = a, up = b): EVERY class must give a valid frame with z-row = target^
         Matrix44<T> m;
